@@ -88,6 +88,68 @@ def h_mask(B, n=4, p=3, cols=(), rows=(), k=2, flags=None, layout="2d", rot=None
             B.eq("transform(masked X) on remaining samples == scores", tA, sA.isel(time=keepr))
 
 
+def h_mask_labels(B, n=4, p=3, cols=(1,), rows=(), k=2, fcoords=(0.0, 60.0, -120.0), scoords=(5, 3, 9, 1)):
+    """coordinates in no particular order (a relabelled longitude axis, unsorted station ids): the re-inserted NaNs and the
+    remaining values must sit at their own LABELS"""
+    X = da2d(B, "x", n, p, scoords=list(scoords)[:n], fcoords=list(fcoords)[:p])
+    cols, rows = list(cols), list(rows)
+    mask = np.zeros((n, p), dtype=bool)
+    mask[:, cols] = True
+    mask[rows, :] = True
+    Xm = X.where(~xr.DataArray(mask, dims=X.dims, coords=X.coords))
+    flab = [X["x"].values[j] for j in range(p)]
+    slab = [X["time"].values[i] for i in range(n)]
+    keepf = [flab[j] for j in range(p) if j not in cols]
+    keeps = [slab[i] for i in range(n) if i not in rows]
+    Xd = X.sel(time=keeps, x=keepf)
+    mA = M.single("EOF", n_modes=k, solver="full")
+    r = B.completes("fit(masked) runs", lambda: mA.fit(Xm, "time"))
+    if r is None:
+        return
+    B.covers("Sanitizer.inverse_transform_components", "Sanitizer.inverse_transform_scores", "Sanitizer.inverse_transform_data")
+    cA, sA = mA.components(), mA.scores()
+    recA = mA.inverse_transform(sA)
+    nan_f = {float(v) for v in cA["x"].values if bool(_nanmask(cA.sel(x=v)).all())}
+    B.check("components: NaN exactly at the LABELS of the fully missing features", nan_f == {float(flab[j]) for j in cols}, f"NaN at {sorted(nan_f)}, missing features {[flab[j] for j in cols]}")
+    nan_s = {int(v) for v in sA["time"].values if bool(_nanmask(sA.sel(time=v)).all())}
+    B.check("scores: NaN exactly at the LABELS of the fully missing samples", nan_s == {int(slab[i]) for i in rows}, f"NaN at {sorted(nan_s)}, missing samples {[slab[i] for i in rows]}")
+    mB = M.single("EOF", n_modes=k, solver="full").fit(Xd, "time")
+    B.eq("singular values equal those of the reduced fit", mA.data["norms"], mB.data["norms"])
+    B.eq("components at the remaining labels == reduced fit", cA.sel(x=keepf), mB.components().sel(x=keepf))
+    B.eq("scores at the remaining labels == reduced fit", sA.sel(time=keeps), mB.scores().sel(time=keeps))
+    B.eq("reconstruction at the remaining labels == input there (all modes kept)" if k == min(len(keeps) - 1, len(keepf)) else "reconstruction at the remaining labels == reduced fit", recA.sel(time=keeps, x=keepf), mB.inverse_transform(mB.scores()).sel(time=keeps, x=keepf))
+
+
+def h_list_rows(B, n=5, rows_a=(1,), rows_b=(3,)):
+    """list input whose items miss different samples: refused, or exactly the analysis of the samples complete in every item"""
+    A = da2d(B, "xa", n, 2)
+    Bv = da2d(B, "xb", n, 2, feat="y")
+
+    def drop(D, rows):
+        m = np.zeros(D.shape, dtype=bool)
+        m[list(rows), :] = True
+        return D.where(~xr.DataArray(m, dims=D.dims, coords=D.coords))
+
+    Am, Bm = drop(A, rows_a), drop(Bv, rows_b)
+    keep = [i for i in range(n) if i not in set(rows_a) | set(rows_b)]
+    B.covers("Concatenator.transform (sample alignment of list items)")
+    model = M.single("EOF", n_modes=2, solver="full")
+    try:
+        model.fit([Am, Bm], "time")
+        fitted = True
+    except ValueError:
+        fitted = False
+    if set(rows_a) == set(rows_b):
+        B.check("items missing the same samples are accepted", fitted, "fit refused the data")
+    if not fitted:
+        B.check("list items missing different samples: refused", True, "")
+        return
+    ref = M.single("EOF", n_modes=2, solver="full").fit([A.isel(time=keep), Bv.isel(time=keep)], "time")
+    B.eq("accepted list with missing samples: singular values == fit on the samples complete in every item", model.data["norms"], ref.data["norms"])
+    sc = model.scores().isel(time=keep)
+    B.eq("accepted list with missing samples: scores of the complete samples == those of the reduced fit", sc, ref.scores())
+
+
 def h_isolated(B, n=4, p=3, cells=((1, 1),), when="fit", base_cols=(), flags=None):
     flags = dict(flags or {})
     X = da2d(B, "x", n, p)
@@ -195,6 +257,11 @@ def configs(tier):
             if tier == "quick" and c and r and (len(c) + len(r)) > 2:
                 continue
             add("h_mask", f"EOF|cols={list(c)}|rows={list(r)}", n=n, p=p, cols=c, rows=r)
+    for ra, rb in (((1,), (3,)), ((1,), (1,)), ((0,), ()), ((0, 2), (2, 4))):
+        add("h_list_rows", f"list|missing samples A={list(ra)} B={list(rb)}", rows_a=ra, rows_b=rb)
+    add("h_mask_labels", "EOF|unsorted labels|cols=[1]", cols=(1,), rows=())
+    add("h_mask_labels", "EOF|unsorted labels|cols=[0]|rows=[2]", cols=(0,), rows=(2,), n=5, scoords=(5, 3, 9, 1, 7))
+    add("h_mask_labels", "EOF|unsorted labels|rows=[1]", cols=(), rows=(1,), n=5, scoords=(5, 3, 9, 1, 7))
     add("h_mask", "EOF|standardize|cols=[1]|rows=[0]", n=n, p=p, cols=(1,), rows=(0,), flags={"standardize": True})
     add("h_mask", "EOF|3d|cell=[2]", n=4, p=4, cols=(2,), rows=(), layout="3d")
     add("h_mask", "EOF|3d|coslat|cell=[0]|rows=[1]", n=4, p=4, cols=(0,), rows=(1,), layout="3d", flags={"use_coslat": True})
